@@ -22,7 +22,8 @@ def _extra(ctx):
 
 _MX = ["mx_base_z2_ilist_rows", "mx_base_z5_set_setrows", "mx_base_z2_iset_compression", "mx_base_z5_heap",
        "mx_ru_z2_iset_vine_removable", "mx_ru_z5_list", "mx_ru_z2_vector_map_rep", "mx_boundary_z5_uset",
-       "mx_chain_z2_ilist_map_vine", "mx_chain_z5_set_rep", "mx_chain_z2_nvector_setrows_removable"]
+       "mx_chain_z2_ilist_map_vine", "mx_chain_z5_set_rep", "mx_chain_z2_nvector_setrows_removable",
+       "mx_chain_z2_iset_id_removable", "mx_chain_z5_list_pos_removable", "mx_boundary_z2_set_id_removable", "mx_chain_z5_vector_id_map_rep"]
 SPEC = {
     "property": "C15",
     "rule": "Simplex_tree: a source tree A is built by a random model-generated history (2-30 ops incl. removals/prunings, so cached dimension bounds may be stale), "
@@ -30,23 +31,23 @@ SPEC = {
             "self move assign, binary serialise/deserialise incl. every length perturbation -16..+16 and random truncations on exact-size heap buffers, "
             "text operator<< / operator>>} is applied; the result and the source are compared with the model through every read interface, "
             "then both objects are driven through different random histories with the OTHER object fully re-checked after every step, and one "
-            "of them is destroyed before the other continues. All 8 option sets, under ASan+UBSan. Matrix: 11 instantiations (base with intrusive/set rows, compression, heap; RU with vine/rep/map container; boundary; chain with vine/rep/removable columns): a matrix built on a random filtered complex prefix is copied / assigned / self-assigned / moved / swapped, the full dump (all columns of R and U, barcode, rows) is compared, both objects are then driven differently (remaining cells, remove_last) with the other re-dumped, barcodes are compared with an independent reduction, one object is destroyed before the other continues; a moved-from matrix must report 0 columns and be usable again after assignment. non-trivial = distinct (history, scenario) "
+            "of them is destroyed before the other continues. All 8 option sets, under ASan+UBSan. Matrix: 15 instantiations (base with intrusive/set rows, compression, heap; RU with vine/rep/map container; boundary; chain with vine/rep/removable columns): a matrix built on a random filtered complex prefix is copied / assigned / self-assigned / moved / swapped, the full dump (all columns of R and U, barcode, rows) is compared, both objects are then driven differently (remaining cells, remove_last) with the other re-dumped, barcodes are compared with an independent reduction, one object is destroyed before the other continues; a moved-from matrix must report 0 columns and be usable again after assignment. non-trivial = distinct (history, scenario) "
             "with source dimension >= 1 or a move/swap/serialisation scenario",
-    "assumptions": ["a moved-from Matrix is made usable again by assigning a matrix to it (it owns no column settings; direct reuse is not offered by the library)", "Matrix part: 11 pointer-rich instantiations (intrusive rows/columns, pools, Z_p operators pointer, compression, RU+vine, chain+map container, removable columns)", "oracle::ComplexModel is the trusted model", "stream precision set to max_digits10 by the caller (documented responsibility)",
+    "assumptions": ["a moved-from Matrix is made usable again by assigning a matrix to it (it owns no column settings; direct reuse is not offered by the library)", "Matrix part: 15 pointer-rich instantiations (incl. the position / identifier indexing overlays) (intrusive rows/columns, pools, Z_p operators pointer, compression, RU+vine, chain+map container, removable columns)", "oracle::ComplexModel is the trusted model", "stream precision set to max_digits10 by the caller (documented responsibility)",
                     "TSan thread workloads live in the C03 (Simplex_tree) and C10 (field tables) checks"],
     "units": [
         {"name": "st", "src": _SRC, "variant": "asan",
          "configs": {("st_" + n): {"quick": 700, "thorough": 40000} for n in _OPTS}, "chunk": 25},
-        {"name": "mx", "src": ["c15_main.cpp", "c15_mx_a.cpp", "c15_mx_b.cpp", "c15_mx_c.cpp"], "variant": "asan",
+        {"name": "mx", "src": ["c15_main.cpp", "c15_mx_a.cpp", "c15_mx_b.cpp", "c15_mx_c.cpp", "c15_mx_d.cpp"], "variant": "asan",
          "configs": {n: {"quick": 500, "thorough": 30000} for n in _MX}, "chunk": 25},
-        {"name": "mx_gcc", "src": ["c15_main.cpp", "c15_mx_a.cpp", "c15_mx_b.cpp", "c15_mx_c.cpp"], "variant": "gasan", "tiers": ["thorough"],
+        {"name": "mx_gcc", "src": ["c15_main.cpp", "c15_mx_a.cpp", "c15_mx_b.cpp", "c15_mx_c.cpp", "c15_mx_d.cpp"], "variant": "gasan", "tiers": ["thorough"],
          "configs": {n: {"thorough": 3000} for n in _MX}, "chunk": 25},
         {"name": "st_gcc", "src": _SRC, "variant": "gasan",
          "configs": {("st_" + n): {"quick": 100, "thorough": 5000} for n in _OPTS}, "chunk": 25},
         # valgrind memcheck: uses of uninitialised values in copied / moved-from / deserialised objects (invisible to ASan/UBSan)
         {"name": "st_memcheck", "src": _SRC, "variant": "memcheck",
          "configs": {("st_" + n): {"quick": 40, "thorough": 1200} for n in _OPTS}, "chunk": 10},
-        {"name": "mx_memcheck", "src": ["c15_main.cpp", "c15_mx_a.cpp", "c15_mx_b.cpp", "c15_mx_c.cpp"], "variant": "memcheck",
+        {"name": "mx_memcheck", "src": ["c15_main.cpp", "c15_mx_a.cpp", "c15_mx_b.cpp", "c15_mx_c.cpp", "c15_mx_d.cpp"], "variant": "memcheck",
          "configs": {n: {"quick": 24, "thorough": 800} for n in _MX}, "chunk": 8},
     ],
     "extra": _extra,
